@@ -48,6 +48,7 @@ var asgRepl = map[token.Token][]string{
 }
 
 var ops2 = os.Getenv("MUTGEN_OPS") == "2"
+var ops3 = os.Getenv("MUTGEN_OPS") == "3"
 
 func main() {
 	root := os.Args[1]
@@ -68,6 +69,9 @@ func main() {
 		out[i].ID = fmt.Sprintf("M%05d", i)
 		if ops2 {
 			out[i].ID = fmt.Sprintf("N%05d", i)
+		}
+		if ops3 {
+			out[i].ID = fmt.Sprintf("P%05d", i)
 		}
 		enc.Encode(out[i])
 	}
@@ -92,6 +96,116 @@ func mutate(root, path string) []Mut {
 		out = append(out, Mut{File: rel, Start: so, End: eo, Repl: repl, Orig: string(src[so:eo]), Line: fset.Position(s).Line, Func: fn, Op: op})
 	}
 	text := func(n ast.Node) string { return string(src[off(n.Pos()):off(n.End())]) }
+	if ops3 {
+		// third family: the wrong variable. Names declared TOGETHER (one parameter field `a, b []byte`, one var spec,
+		// one `la, lb := ...`, one struct field list `base, off, limit int64`) have the same type or play the same
+		// role: every use of one of them is replaced by each of the others.
+		fieldGroups := map[string][]string{} // struct field name -> its group
+		ast.Inspect(f, func(n ast.Node) bool {
+			if st, ok := n.(*ast.StructType); ok {
+				byType := map[string][]string{} // fields of one struct with the same type (as written)
+				for _, fl := range st.Fields.List {
+					t := text(fl.Type)
+					for _, nm := range fl.Names {
+						byType[t] = append(byType[t], nm.Name)
+					}
+				}
+				for _, g := range byType {
+					if len(g) > 1 {
+						for _, nm := range g {
+							fieldGroups[nm] = g
+						}
+					}
+				}
+			}
+			return true
+		})
+		for _, d := range f.Decls {
+			fd, ok := d.(*ast.FuncDecl)
+			if !ok || fd.Body == nil {
+				continue
+			}
+			fn = fd.Name.Name
+			groups := map[string][]string{}
+			addGroup := func(names []*ast.Ident) {
+				var g []string
+				for _, nm := range names {
+					if nm.Name != "_" {
+						g = append(g, nm.Name)
+					}
+				}
+				if len(g) > 1 {
+					for _, nm := range g {
+						groups[nm] = g
+					}
+				}
+			}
+			for _, fl := range [](*ast.FieldList){fd.Type.Params, fd.Type.Results} {
+				if fl != nil {
+					byType := map[string][]*ast.Ident{} // parameters of the same type (as written), also across fields
+					for _, x := range fl.List {
+						byType[text(x.Type)] = append(byType[text(x.Type)], x.Names...)
+					}
+					for _, ids := range byType {
+						addGroup(ids)
+					}
+				}
+			}
+			decl := map[token.Pos]bool{}
+			ast.Inspect(fd.Body, func(n ast.Node) bool {
+				switch x := n.(type) {
+				case *ast.AssignStmt:
+					if x.Tok == token.DEFINE {
+						var ids []*ast.Ident
+						for _, l := range x.Lhs {
+							if id, ok := l.(*ast.Ident); ok {
+								ids = append(ids, id)
+								decl[id.Pos()] = true
+							}
+						}
+						if len(ids) == len(x.Lhs) {
+							addGroup(ids)
+						}
+					}
+				case *ast.ValueSpec:
+					addGroup(x.Names)
+					for _, id := range x.Names {
+						decl[id.Pos()] = true
+					}
+				}
+				return true
+			})
+			ast.Inspect(fd.Body, func(n ast.Node) bool {
+				switch x := n.(type) {
+				case *ast.SelectorExpr:
+					if g, ok := fieldGroups[x.Sel.Name]; ok {
+						for _, o := range g {
+							if o != x.Sel.Name {
+								add(x.Sel.Pos(), x.Sel.End(), o, "field "+x.Sel.Name+"->"+o)
+							}
+						}
+					}
+					ast.Inspect(x.X, func(m ast.Node) bool { return true })
+					return true
+				case *ast.KeyValueExpr:
+					return true
+				case *ast.Ident:
+					if decl[x.Pos()] {
+						return true
+					}
+					if g, ok := groups[x.Name]; ok {
+						for _, o := range g {
+							if o != x.Name {
+								add(x.Pos(), x.End(), o, "var "+x.Name+"->"+o)
+							}
+						}
+					}
+				}
+				return true
+			})
+		}
+		return out
+	}
 	if ops2 {
 		// second family: operand swaps, index and slice bounds +-1, len -> cap / len-1, return values, if/else bodies
 		var results *ast.FieldList
